@@ -219,4 +219,5 @@ shape!(c01_walk_v0_v0_v0_sealed, 0, Some((0, false)), Some((0, false)), true, fa
 shape!(c01_walk_v1_v1ext_v1ext, 1, Some((1, true)), Some((1, true)), false, false);
 shape!(c01_walk_v1_v1ext_sealed_p256, 1, Some((1, true)), None, true, true);
 shape!(c01_walk_v0_v1_v0_mixed, 0, Some((1, false)), Some((0, false)), false, false);
+shape!(c01_walk_v0_v1ext_sealed, 0, Some((1, true)), None, true, false);
 shape!(c01_walk_auth_v0_p256, 0, None, None, false, true);
